@@ -776,7 +776,21 @@ class C15(Prop):
         "renaming: proved for one scope of the name generator whose names are fresh (`C15_renaming_renames_the_result`) and for its local-variable pass (`C15_renaming_renames_the_locals`; coq/proofs/NameGenEquiv.v); not proved for the stages around the generator, which the renaming / probe runs sample",
     ]
 
+    # pairs of entity kinds that share a name in one scope of the emitted HLSL on the unchanged tree: one side is always
+    # a name the generator does not manage (enum value, constant buffer, constant buffer member)
+    _TYPE_VALUE_PAIRS = {("enum value", "struct"), ("enum", "enum value"), ("constant buffer member", "struct"), ("constant buffer member", "enum")}
+    _CBUFFER_PAIRS = {("constant buffer", k) for k in ("global", "function", "namespace", "constant buffer member", "struct", "enum", "enum value")}
+
     def known_class(self, case, impl, model):
+        if case.startswith("N ") and impl.startswith("DUP-NAME"):
+            m = re.search(r"is declared as (.*?) and as (.*?) in scope", impl)
+            if m:
+                pair = tuple(sorted((m.group(1), m.group(2))))
+                if pair in self._TYPE_VALUE_PAIRS:
+                    return "type-and-unmanaged-value-of-one-name"
+                if pair in self._CBUFFER_PAIRS:
+                    return "constant-buffer-name-shared"
+            return None
         if case.startswith("R ") and impl.startswith("LEAK"):
             pos = case.split()[2]
             if pos in _UNMANAGED_POSITIONS:
@@ -784,7 +798,7 @@ class C15(Prop):
         return None
 
     def comparable(self, case, impl, model):
-        return not (impl.startswith("REJECT") or impl.startswith("IR-CHANGED") or impl.startswith("BAD") or case.startswith("U ")
+        return not (impl.startswith("REJECT") or impl.startswith("IR-CHANGED") or impl.startswith("BAD") or case.startswith("U ") or case.startswith("N ")
                     or (case.startswith("R ") and impl.startswith("PANIC")))
 
     def oracle(self, case, impl, model=None):
@@ -799,6 +813,10 @@ class C15(Prop):
                 w = case.split()
                 return "reserved name %r is emitted as the name of a %s on %s" % (w[3], w[2], w[1])
             return None
+        if case.startswith("N "):
+            if impl.startswith("DUP-NAME"):
+                return "the emitted HLSL declares two entities of one name in one scope: " + impl[9:300]
+            return None      # aborts on such programs are C08's subject (type-named-like-function is recorded there)
         if not self.comparable(case, impl, model):
             return None
         if impl.startswith("PANIC"):
@@ -924,6 +942,8 @@ class C15(Prop):
     def nontrivial(self, case, impl):
         if case.startswith("U "):
             return impl.startswith("USES-SAME") and impl != "USES-SAME 0"
+        if case.startswith("N "):
+            return impl.startswith("DECLS")
         return not case.startswith("R ") and (re.search(r"_\d+\b", impl) is not None or re.search(r"Q:\d+:\d+=[01]*1", impl) is not None)
 
     def kind(self, case):
@@ -931,6 +951,8 @@ class C15(Prop):
             return "uses re-read"
         if case.startswith("R "):
             return "probe " + case.split()[2]
+        if case.startswith("N "):
+            return "one name, several declarations"
         return "table " + case[0]
 
 
@@ -1334,6 +1356,8 @@ class C14(Prop):
             w = case.split()
             if w[0] == "W":
                 return "inserting trivia at token boundaries of program %s (seed %s) changed the result: %s" % (w[1], w[2], impl[5:300])
+            if impl.startswith("DIFF the diagnostic"):
+                return "program %s: %s" % (w[1], impl[5:300])
             return "inserting %s %s lines before program %s did not shift the diagnostic by exactly that many lines: %s" % (w[2], w[3], w[1], impl[5:300])
         return None
 
